@@ -62,6 +62,9 @@ func init() {
 		Old: "\t\t\tr.sepLeft = len(r.sep)\n\n", New: "\n",
 		Old2: "\t\tr.cur = nil\n\n", New2: "\t\tr.cur = nil\n\t\tr.sepLeft = len(r.sep)\n\n",
 		Rule: "R19.8", Construct: "separator armed"})
+	mutant(&Mutant{Name: "c20-backup-replaces-existing-file", Property: "C20", File: "cmd/minify/main.go",
+		Old: "\t\t\t\tif _, err := os.Lstat(srcs[i]); err == nil {\n", New: "\t\t\t\tif _, err := os.Lstat(t.dst); err != nil {\n",
+		Rule: "R20.8", Construct: "backup rename"})
 	mutant(&Mutant{Name: "c20-truncate-before-backup", Property: "C20", File: "cmd/minify/main.go",
 		Old:  "\t\t\t\tif err != nil {\n\t\t\t\t\tError.Println(err)\n\t\t\t\t\treturn false\n\t\t\t\t}\n\t\t\t\tbreak\n\t\t\t}\n\t\t}\n\t}\n",
 		New:  "\t\t\t\tif err != nil {\n\t\t\t\t\tError.Println(err)\n\t\t\t\t}\n\t\t\t\tbreak\n\t\t\t}\n\t\t}\n\t}\n",
@@ -169,6 +172,66 @@ func runC20(c *Ctx) {
 	// when minification fails the destination must receive the ORIGINAL bytes: with an in-place run the backup
 	// is removed after that write, so anything else loses the only copy
 	c.alsoUnder(map[string]string{"R19.1": "R20.7"}, nil, func() { c.r191(x) })
+	c.r208(x, "R20.8")
+}
+
+// R20.8 (= R19.11): taking the backup does not destroy a file that is already there.
+func (c *Ctx) r208(x *cliCtx, rule string) {
+	c.R.Rule(rule, "os.Rename replaces its target silently. In cmd/minify.minify the rename of the destination to its backup name B (the second argument of the os.Rename whose first argument is t.dst) is reached only on the failure outcome of a stat of that same B (`_, err := os.Stat(B)` / os.Lstat, err != nil): a file that already carries the backup name — `a.js.bak` next to `a.js` — is otherwise overwritten by the rename and then deleted by the cleanup, although the command was never asked to touch it")
+	g, info := x.g, x.info
+	n := 0
+	for node, calls := range x.tryDoWith("os.Rename") {
+		for _, call := range calls {
+			if len(call.Args) != 2 || !isTaskDst(info, call.Args[0]) {
+				continue
+			}
+			n++
+			bak := nospace(str(call.Args[1]))
+			ok := false
+			for _, f := range g.DomFacts(node) {
+				if f.Test.Kind != flow.KCond {
+					continue
+				}
+				// the error variable tested is bound by os.Stat / os.Lstat of the same path
+				for _, sc := range f.Test.Succs {
+					if (sc.Kind == flow.KTrue) != f.Value {
+						continue
+					}
+					be, isB := ast.Unparen(f.Test.Expr).(*ast.BinaryExpr)
+					if !isB {
+						continue
+					}
+					var eid *ast.Ident
+					if isNilExpr(be.Y) {
+						eid, _ = ast.Unparen(be.X).(*ast.Ident)
+					}
+					if eid == nil {
+						continue
+					}
+					eobj := info.Uses[eid]
+					if !errOutcome(info, sc, eobj, false) {
+						continue
+					}
+					// definition of that error
+					for _, z := range g.Nodes {
+						as, isAs := z.Stmt.(*ast.AssignStmt)
+						if !isAs || len(as.Rhs) != 1 {
+							continue
+						}
+						sc2 := isCall(info, ast.Unparen(as.Rhs[0]), "os.Stat", "os.Lstat")
+						if sc2 == nil || nospace(str(sc2.Args[0])) != bak {
+							continue
+						}
+						if lid, isId := as.Lhs[len(as.Lhs)-1].(*ast.Ident); isId && (info.Defs[lid] == eobj || info.Uses[lid] == eobj) {
+							ok = true
+						}
+					}
+				}
+			}
+			c.R.Check(ok, rule, "main.minify/backup rename does not replace an existing file", c.pos(call), "only after os.Stat("+str(call.Args[1])+") failed", "the destination is renamed to "+str(call.Args[1])+" without checking that no such file exists: a user's file of that name is overwritten and later removed")
+		}
+	}
+	c.R.Floor(rule, "backup renames", n, 1)
 }
 
 // R20.6: the overwrite detection identifies files the way the truncating open resolves them.
@@ -895,6 +958,7 @@ func runC19(c *Ctx) {
 	c.r198(x)
 	c.r199()
 	c.r1910(x)
+	c.r208(x, "R19.11")
 }
 
 // R19.8: the bundle reader delivers files in order with the whole separator between them.
